@@ -533,3 +533,31 @@ with wf_items (ft : ftype) (l : items) {struct l} : Prop :=
 
 (* the full domain: structurally well-formed and representable in uint32 sizes *)
 Definition wf (m : msg) : Prop := wf_msg m /\ size_msg m < two32.
+
+(* ================================================================== the C++ leaf equalities (for the correspondence run) *)
+
+Definition f32_is_nan (v : N) : bool := ((v / 8388608) mod 256 =? 255) && negb (v mod 8388608 =? 0).
+Definition f32_eqb (a b : bytes) : bool :=
+  let x := le_dec a in let y := le_dec b in
+  if f32_is_nan x || f32_is_nan y then false
+  else if (x mod 2147483648 =? 0) && (y mod 2147483648 =? 0) then true       (* +0 == -0 *)
+  else x =? y.
+Definition f64_is_nan (v : N) : bool :=
+  ((v / 4503599627370496) mod 2048 =? 2047) && negb (v mod 4503599627370496 =? 0).
+Definition f64_eqb (a b : bytes) : bool :=
+  let x := le_dec a in let y := le_dec b in
+  if f64_is_nan x || f64_is_nan y then false
+  else if (x mod 9223372036854775808 =? 0) && (y mod 9223372036854775808 =? 0) then true
+  else x =? y.
+
+(* operator== of the C++ item types on their wire bytes: integers and bools bitwise, float/double IEEE
+   (NaN is unequal to everything including itself, the two zeros are equal), Point/Rect componentwise *)
+Definition ieq_cpp (ft : ftype) (a b : bytes) : bool :=
+  match ft with
+  | TFloat => f32_eqb a b
+  | TDouble => f64_eqb a b
+  | TPoint => f32_eqb (nth_bytes 0 4 a) (nth_bytes 0 4 b) && f32_eqb (nth_bytes 4 4 a) (nth_bytes 4 4 b)
+  | TRect => f32_eqb (nth_bytes 0 4 a) (nth_bytes 0 4 b) && f32_eqb (nth_bytes 4 4 a) (nth_bytes 4 4 b)
+             && f32_eqb (nth_bytes 8 4 a) (nth_bytes 8 4 b) && f32_eqb (nth_bytes 12 4 a) (nth_bytes 12 4 b)
+  | _ => bytes_eqb a b
+  end.
